@@ -331,6 +331,7 @@ func cmdCheck(prop, tier string) int {
 		"query_time_limit_s":       secs,
 		"termination_not_shown":    termMissing,
 		"warnings":                 warnings,
+		"functions_not_found":      missingFns,
 		"cover_checks":             len(covers),
 	}
 	if len(bounded) > 0 {
